@@ -1,4 +1,4 @@
-(* C01 — accuracy of the returned position.  Statements only.
+(* C01 — accuracy of the returned position and velocity.  Statements only.
    Pxf / Pyf / Pzf el t e Es (proofs/P_Sgp4Lip.v) are the coordinates [km] of the report's position
        rk * XKMPER * U(uk, Omega_k, i_k)
    evaluated at Es (position_is_report); below, Es is the EXACT solution of the report's Kepler equation.
@@ -26,9 +26,27 @@ Theorem C01_position_is_report : forall el t e, 1 <= a el t -> eL2 el t e <= 4 /
 Proof. exact position_is_report. Qed.
 Print Assumptions C01_position_is_report.
 
-(* THE 1 mm CLAIM over the reals, e0 > 1e-4: on an answered propagation whose Newton loop has met its stopping rule
+(* the velocity: Vxk / Vyk / Vzk el t e x [km/s] are (rdotk U + rfdotk V) * 106.30225 of the report, 460 (km/s)/rad *)
+Theorem C01_velocity_lipschitz : forall el t e, 1 <= a el t -> a el t <= 2 -> eL2 el t e <= 4 / 25 -> forall x y,
+  Rabs (Vxk el t e x - Vxk el t e y) <= 460 * Rabs (x - y) /\
+  Rabs (Vyk el t e x - Vyk el t e y) <= 460 * Rabs (x - y) /\
+  Rabs (Vzk el t e x - Vzk el t e y) <= 460 * Rabs (x - y).
+Proof. exact velocity_lipschitz. Qed.
+Print Assumptions C01_velocity_lipschitz.
+
+Theorem C01_velocity_is_report : forall el t e, 1 <= a el t -> eL2 el t e <= 4 / 25 -> forall x,
+  let u := atan2 (sinu el t e x) (cosu el t e x) in
+  let th' := uk el t e x u in let O := Ok el t e x in let I := ik el t e x in
+  Vxk el t e x = rdotk el t e x * vfac * Ux th' O I + rfdotk el t e x * vfac * Vx th' O I /\
+  Vyk el t e x = rdotk el t e x * vfac * Uy th' O I + rfdotk el t e x * vfac * Vy th' O I /\
+  Vzk el t e x = rdotk el t e x * vfac * Uz th' O I + rfdotk el t e x * vfac * Vz th' O I.
+Proof. exact velocity_is_report. Qed.
+Print Assumptions C01_velocity_is_report.
+
+(* THE 1 mm / 1 um/s CLAIM over the reals, e0 > 1e-4: on an answered propagation whose Newton loop has met its stopping rule
    (every exit but the eleventh), with semi-major axis <= 2 earth radii and eL^2 <= 4/25, each coordinate of the
-   returned position is within 1e-6 km of the report's position at the unique exact solution of Kepler's equation *)
+   returned position is within 1e-6 km, and each coordinate of the returned velocity within 1e-9 km/s, of the report's
+   at the unique exact solution of Kepler's equation *)
 Theorem C01_position_accuracy : forall e0 i r w m n b ts j Ucap Ew radius theta eqinc ascn rdk rfdk smjaxs,
   gen_init_outcome e0 i r w m n b = InitMode NearNorm 1 ->
   gen_nn1_prop_outcome e0 i r w m n b ts = PropOk j ->
@@ -40,7 +58,10 @@ Theorem C01_position_accuracy : forall e0 i r w m n b ts j Ucap Ew radius theta 
     (forall Es', kepler_residual El T ec Ucap Es' = 0 -> Es' = Es) /\
     Rabs (gen_kep2xyz_x radius theta eqinc ascn rdk rfdk - Pxf El T ec Es) <= 1 / 1000000 /\
     Rabs (gen_kep2xyz_y radius theta eqinc ascn rdk rfdk - Pyf El T ec Es) <= 1 / 1000000 /\
-    Rabs (gen_kep2xyz_z radius theta eqinc ascn rdk rfdk - Pzf El T ec Es) <= 1 / 1000000.
+    Rabs (gen_kep2xyz_z radius theta eqinc ascn rdk rfdk - Pzf El T ec Es) <= 1 / 1000000 /\
+    Rabs (gen_kep2xyz_vx radius theta eqinc ascn rdk rfdk - Vxk El T ec Es) <= 1 / 1000000000 /\
+    Rabs (gen_kep2xyz_vy radius theta eqinc ascn rdk rfdk - Vyk El T ec Es) <= 1 / 1000000000 /\
+    Rabs (gen_kep2xyz_vz radius theta eqinc ascn rdk rfdk - Vzk El T ec Es) <= 1 / 1000000000.
 Proof. exact position_accuracy_leaf1. Qed.
 Print Assumptions C01_position_accuracy.
 
@@ -56,7 +77,10 @@ Theorem C01_position_accuracy_small_e : forall e0 i r w m n b ts j Ucap Ew radiu
     (forall Es', kepler_residual El T ec Ucap Es' = 0 -> Es' = Es) /\
     Rabs (gen_kep2xyz_x radius theta eqinc ascn rdk rfdk - Pxf El T ec Es) <= 1 / 1000000 /\
     Rabs (gen_kep2xyz_y radius theta eqinc ascn rdk rfdk - Pyf El T ec Es) <= 1 / 1000000 /\
-    Rabs (gen_kep2xyz_z radius theta eqinc ascn rdk rfdk - Pzf El T ec Es) <= 1 / 1000000.
+    Rabs (gen_kep2xyz_z radius theta eqinc ascn rdk rfdk - Pzf El T ec Es) <= 1 / 1000000 /\
+    Rabs (gen_kep2xyz_vx radius theta eqinc ascn rdk rfdk - Vxk El T ec Es) <= 1 / 1000000000 /\
+    Rabs (gen_kep2xyz_vy radius theta eqinc ascn rdk rfdk - Vyk El T ec Es) <= 1 / 1000000000 /\
+    Rabs (gen_kep2xyz_vz radius theta eqinc ascn rdk rfdk - Vzk El T ec Es) <= 1 / 1000000000.
 Proof. exact position_accuracy_leaf3. Qed.
 Print Assumptions C01_position_accuracy_small_e.
 
